@@ -45,7 +45,9 @@ abbrev Tid := Nat
 
 structure Variant where
   /-- D7 repaired: `compress()`, `flush()`, the optional reset and the socket write happen under
-      one acquisition of the write lock, after the state checks -/
+      one acquisition of the write lock, after the state checks (this is the step order of
+      `notes/fix-D7.patch`: `with self._lock: _check_writable(); compress(data); _sendall(frame)`;
+      the harness observes which shape the code has and drives the model with the matching flag) -/
   compressUnderLock : Bool := false
   /-- D8 repaired: `close()` sets `closing` under the write lock, right after writing the Close
       frame; the reply-Close path sets `closed` then clears `closing` under the write lock -/
